@@ -32,6 +32,7 @@ PROPERTY = "C27"
 EXHAUSTIVE = False
 CASE_TIMEOUT = 10.0
 RULE = ("generated schedules on a microsecond virtual clock: 0-8 RoutingBusy datagrams (wait 0..300 ms and 16-bit extremes, "
+        "device state and routing-busy control field over zero / one / high-bit / all-ones values, "
         "bursts inside / at / outside the 10 ms cooldown, arrivals before / at / after the end of the running pause and at "
         "decrement instants) interleaved with 1-12 send_cemi calls from up to 3 concurrent tasks (same instant, inside the "
         "20 ms spacing, during a pause); scripted random extension r=k/1000. non-trivial = schedule with at least one busy "
@@ -90,6 +91,19 @@ def _cemi(ident):
                      data=CEMILData.init_from_telegram(tg, src_addr=IndividualAddress("1.1.1")))
 
 
+_CONTROL_FIELDS = (0x0000, 0x0001, 0xFFFF, 0x8000, 0x0100, 0x0000, 0x00FF, 0x1234)
+_DEVICE_STATES = (0x00, 0x01, 0x02, 0x03, 0xFF, 0x00, 0x80, 0x00)
+
+
+def _busy_control(ev):
+    """routing busy control field of a generated busy event (seed round 4: non-zero fields were never sent)"""
+    return _CONTROL_FIELDS[(ev[0] // 7 + ev[2] + 3 * ev[3]) % len(_CONTROL_FIELDS)]
+
+
+def _busy_state(ev):
+    return _DEVICE_STATES[(ev[0] // 11 + 5 * ev[2] + ev[3]) % len(_DEVICE_STATES)]
+
+
 def _run(events):
     """events: list of (t_us, kind, args...) sorted by time (stable). Returns (trace, escaped exceptions)."""
     trace, holder = [], []
@@ -144,7 +158,11 @@ async def _main_with_holder(loop, events, trace, holder):
         kind = ev[1]
         if kind == "busy":
             _, _, w, k, _ = ev
-            raw = KNXIPFrame.init_from_body(RoutingBusy(device_state=0, wait_time=w, control_field=0)).to_knx()
+            # the flow-control rules apply to every busy frame whatever its device state / routing busy control
+            # field (03.08.05 §2.3.5: a device that does not interpret the control field pauses for any value);
+            # both are derived from the event so that the event format and the replays stay as they are
+            raw = KNXIPFrame.init_from_body(RoutingBusy(device_state=_busy_state(ev), wait_time=w,
+                                                        control_field=_busy_control(ev))).to_knx()
             old = fc._timer_task
             try:
                 rt.transport.data_received_callback(raw, ("192.168.1.2", 3671))
